@@ -142,7 +142,21 @@ Record sat (g : gstate) (t : nat) (th : tstate) (a : astate) : Prop := {
   s_dlat : if d_lat a then exists i, g_lat (gh th) = Some i /\ r_trial th = Some i else g_lat (gh th) = None;
   s_regmiss : f_regmiss a = true -> holds LReg (a_locks a) = true /\ registry g = None;
   s_idfresh : f_idfresh a = true -> holds LStudy (a_locks a) = true /\ r_id th = S (length (T g));
-  s_room : f_room a = true -> holds LStudy (a_locks a) = true /\ match s_max (St g) with Some m => length (T g) < m | None => True end
+  s_room : f_room a = true -> holds LStudy (a_locks a) = true /\ match s_max (St g) with Some m => length (T g) < m | None => True end;
+  s_dcc : g_cc (gh th) = b2z (d_cc a);
+  s_ddp : g_dp (gh th) = b2z (d_dp a);
+  s_dinf : g_infd (gh th) = b2z (d_inf a);
+  s_dfb : g_fb (gh th) = d_fb a;
+  s_dbest : g_best (gh th) = d_best a;
+  s_curpend : f_curpend a = true -> holds LStudy (a_locks a) = true /\
+              exists i x, r_cur th = Some i /\ nth_error (T g) i = Some x /\ t_done x = false;
+  s_own : f_own a = true -> exists i x, r_cur th = Some i /\ g_own (gh th) = Some i /\ nth_error (T g) i = Some x /\ t_done x = true /\ t_owner x = Some t;
+  s_kinf : forall v, f_inf a = Some v ->
+          exists i x, r_cur th = Some i /\ g_own (gh th) = Some i /\ nth_error (T g) i = Some x /\ t_done x = true /\ t_owner x = Some t /\ t_inf x = v;
+  s_final : f_final a = true ->
+          exists i x, r_cur th = Some i /\ g_own (gh th) = Some i /\ nth_error (T g) i = Some x /\ t_done x = true /\ t_owner x = Some t /\ t_final x <> None;
+  s_hasmeas : f_hasmeas a = true -> exists i x, r_cur th = Some i /\ nth_error (T g) i = Some x /\ t_meas x <> [];
+  s_reward : f_reward a = true -> r_reward th <> None
 }.
 
 (* ---- the invariant of the shared state ------------------------------------------------------------------------ *)
@@ -152,7 +166,14 @@ Record GI (g : gstate) (ts : list tstate) : Prop := {
   gi_reglock : forall t th, nth_error ts t = Some th -> g_reg (gh th) = true -> holds_k th KReg;
   gi_ids : map t_id (T g) = seq 1 (length (T g));
   gi_max : s_max (St g) = c_max c /\ (forall m, s_max (St g) = Some m -> length (T g) <= m);
-  gi_full : s_full (St g) = true -> exists m, s_max (St g) = Some m /\ length (T g) = m
+  gi_full : s_full (St g) = true -> exists m, s_max (St g) = Some m /\ length (T g) = m;
+  gi_pend : forall i x, nth_error (T g) i = Some x -> t_done x = false -> t_owner x = None /\ t_fed x = 0 /\ t_inf x = false;
+  gi_own : forall t th i, nth_error ts t = Some th -> g_own (gh th) = Some i ->
+           exists x, nth_error (T g) i = Some x /\ t_done x = true /\ t_owner x = Some t;
+  gi_fed : forall i x, nth_error (T g) i = Some x -> t_fed x + fbdebt ts i = (if t_done x && negb (t_inf x) then 1 else 0);
+  gi_comp : (s_comp (St g) + sumz (fun th => g_cc (gh th)) ts = countp t_done (T g))%Z;
+  gi_pendc : (s_pend (St g) + sumz (fun th => g_ip (gh th)) ts - sumz (fun th => g_dp (gh th)) ts = countp (fun x => negb (t_done x)) (T g))%Z;
+  gi_infc : (s_inf (St g) + sumz (fun th => g_infd (gh th)) ts = countp t_inf (T g))%Z
 }.
 
 Definition thread_ok (g : gstate) (t : nat) (th : tstate) : Prop := exists a, cur_a th = Some a /\ sat g t th a.
@@ -205,12 +226,19 @@ Ltac bool_hyps :=
   | H : Bool.eqb _ _ = true |- _ => apply eqb_prop in H
   end.
 
+Lemma inf_is_true : forall o v, inf_is o v = true -> o = Some v.
+Proof. destruct o; simpl; intros; try discriminate. apply eqb_prop in H. congruence. Qed.
+
 Lemma sat_leq : forall g t th x y, leq x y = true -> sat g t th x -> sat g t th y.
 Proof.
   intros g t th x y Hl Hs. unfold leq, debts_eqb in Hl. bool_hyps.
-  match goal with H : list_lockref_eqb _ _ = true |- _ => apply list_lockref_eqb_eq in H; rename H into Hlk end.
-  destruct Hs. constructor; try congruence.
-  - match goal with H : d_lat x = d_lat y |- _ => rewrite <- H end. auto.
+  assert (Hlk : a_locks x = a_locks y) by (apply list_lockref_eqb_eq; assumption).
+  assert (Hdl : d_lat x = d_lat y) by assumption.
+  assert (Hinf : forall v, f_inf y = Some v -> f_inf x = Some v).
+  { intros v Hv. match goal with H : match f_inf y with Some _ => _ | None => _ end = true |- _ => rewrite Hv in H; apply inf_is_true in H; auto end. }
+  destruct Hs. constructor; try congruence; auto.
+  - rewrite <- Hdl. auto.
+  - intros. rewrite <- Hlk. auto.
   - intros. rewrite <- Hlk. auto.
   - intros. rewrite <- Hlk. auto.
   - intros. rewrite <- Hlk. auto.
@@ -221,7 +249,9 @@ Record same_regs (th th' : tstate) : Prop := {
   sr_id : r_id th' = r_id th; sr_trial : r_trial th' = r_trial th; sr_cur : r_cur th' = r_cur th; sr_reward : r_reward th' = r_reward th;
   sr_best : r_best th' = r_best th }.
 
-Record same_study (g g' : gstate) : Prop := { ss_st : studies g' 0 = studies g 0; ss_reg : registry g' = registry g }.
+Record same_study (g g' : gstate) : Prop := {
+  ss_tr : T g' = T g; ss_max : s_max (St g') = s_max (St g); ss_lat : s_latest (St g') = s_latest (St g); ss_best : s_best (St g') = s_best (St g);
+  ss_reg : registry g' = registry g }.
 
 Lemma same_regs_refl : forall th, same_regs th th. Proof. constructor; reflexivity. Qed.
 Lemma same_study_refl : forall g, same_study g g. Proof. constructor; reflexivity. Qed.
@@ -233,8 +263,8 @@ Proof. intros a b d [] []. constructor; congruence. Qed.
 
 Lemma sat_frame : forall g g' t th th' a, same_study g g' -> same_regs th th' -> sat g t th a -> sat g' t th' a.
 Proof.
-  intros g g' t th th' a [Hst Hreg] [] []. unfold T, St in *.
-  constructor; rewrite ?sr_held0, ?sr_study0, ?sr_gh0, ?sr_id0, ?sr_trial0, ?Hst, ?Hreg; auto.
+  intros g g' t th th' a [] [] [].
+  constructor; rewrite ?sr_held0, ?sr_study0, ?sr_gh0, ?sr_id0, ?sr_trial0, ?sr_cur0, ?sr_reward0, ?ss_tr0, ?ss_max0, ?ss_reg0; auto.
 Qed.
 
 Lemma sat_holds_study : forall g t th a, sat g t th a -> holds LStudy (a_locks a) = true -> holds_k th (KStudy 0).
@@ -252,10 +282,268 @@ Qed.
 (* returning to the script: no lock, no debt, no fact *)
 Lemma sat_a0 : forall g t th a, sat g t th a -> a_locks a = [] -> no_debt a = true -> sat g t th a0.
 Proof.
-  intros g t th a [] Hl Hd. unfold no_debt in Hd. bool_hyps.
-  constructor; simpl; try discriminate; try congruence.
-  - rewrite s_dip0. match goal with H : d_ip a = false |- _ => rewrite H end. reflexivity.
-  - match goal with H : d_lat a = false |- _ => rewrite H in s_dlat0 end. auto.
+  intros g t th a Hs Hl Hd. unfold no_debt in Hd. bool_hyps.
+  assert (E1 : d_reg a = false) by assumption. assert (E2 : d_ip a = false) by assumption. assert (E3 : d_lat a = false) by assumption.
+  assert (E4 : d_cc a = false) by assumption. assert (E5 : d_dp a = false) by assumption. assert (E6 : d_inf a = false) by assumption.
+  assert (E7 : d_fb a = false) by assumption. assert (E8 : d_best a = false) by assumption.
+  destruct Hs. rewrite E1 in *. rewrite E2 in *. rewrite E3 in *. rewrite E4 in *. rewrite E5 in *. rewrite E6 in *. rewrite E7 in *. rewrite E8 in *.
+  unfold b2z in *.
+  constructor; simpl; try discriminate; try congruence; auto.
 Qed.
+
+(* ---- lists of trials under the primitive mutations ------------------------------------------------------------ *)
+Lemma nth_error_upd_nth : forall A (l : list A) i j f,
+  nth_error (upd_nth i f l) j = if Nat.eqb i j then option_map f (nth_error l j) else nth_error l j.
+Proof.
+  intros. destruct (Nat.eqb i j) eqn:E.
+  - apply Nat.eqb_eq in E. subst. destruct (nth_error l j) eqn:E2; simpl.
+    + eapply nth_error_upd_nth_eq; eauto.
+    + rewrite nth_error_upd_nth_none; auto.
+  - apply Nat.eqb_neq in E. apply nth_error_upd_nth_neq; auto.
+Qed.
+
+Lemma countp_app : forall p l1 l2, countp p (l1 ++ l2) = (countp p l1 + countp p l2)%Z.
+Proof. intros. unfold countp. rewrite filter_app, app_length. lia. Qed.
+
+Lemma countp_upd_same : forall p f l i, (forall x, p (f x) = p x) -> countp p (upd_nth i f l) = countp p l.
+Proof.
+  intros. unfold countp. f_equal. revert i. induction l; destruct i; cbn [upd_nth filter]; auto.
+  - rewrite H. destruct (p a); auto.
+  - specialize (IHl i). destruct (p a); cbn [length]; auto.
+Qed.
+
+Lemma countp_upd_flip : forall p f l i x, nth_error l i = Some x ->
+  countp p (upd_nth i f l) = (countp p l - b2z (p x) + b2z (p (f x)))%Z.
+Proof.
+  unfold countp. induction l; destruct i; intros; try discriminate; simpl in H.
+  - inv H. cbn [upd_nth filter]. unfold b2z. destruct (p x), (p (f x)); cbn [length]; lia.
+  - specialize (IHl _ _ H). cbn [upd_nth filter]. destruct (p a); cbn [length]; lia.
+Qed.
+
+Lemma sumz_same : forall f ts t th th', nth_error ts t = Some th -> f th' = f th -> sumz f (set_th ts t th') = sumz f ts.
+Proof. intros. erewrite sumz_set_th; eauto. lia. Qed.
+
+Lemma cntb_same : forall f ts t th th', nth_error ts t = Some th -> f th' = f th -> cntb f (set_th ts t th') = cntb f ts.
+Proof. intros. pose proof (cntb_set_th_nat f ts t th th' H). rewrite H0 in H1. lia. Qed.
+
+Lemma cntb_all_false : forall f ts, (forall t th, nth_error ts t = Some th -> f th = false) -> cntb f ts = 0.
+Proof.
+  unfold cntb. induction ts; simpl; intros; auto.
+  rewrite (H 0 a eq_refl). apply IHts. intros. apply (H (S t) th). auto.
+Qed.
+
+Lemma seq_snoc : forall n, seq 1 (S n) = seq 1 n ++ [S n].
+Proof. intros. rewrite seq_S. reflexivity. Qed.
+
+Lemma last_opt_some : forall l, l <> [] -> last_opt l <> None.
+Proof.
+  intros. unfold last_opt. destruct (rev l) eqn:E; try discriminate.
+  exfalso. apply H. rewrite <- (rev_involutive l). rewrite E. reflexivity.
+Qed.
+
+(* ---- GI: frame ---------------------------------------------------------------------------------------------------- *)
+Record same_gi (g g' : gstate) : Prop := {
+  sg_tr : T g' = T g; sg_max : s_max (St g') = s_max (St g); sg_full : s_full (St g') = s_full (St g);
+  sg_comp : s_comp (St g') = s_comp (St g); sg_pend : s_pend (St g') = s_pend (St g); sg_inf : s_inf (St g') = s_inf (St g);
+  sg_reg : registry g' = registry g; sg_nst : nstudies g' = nstudies g }.
+
+Lemma fbdebt_same : forall ts t th th' i, nth_error ts t = Some th -> gh th' = gh th -> fbdebt (set_th ts t th') i = fbdebt ts i.
+Proof. intros. unfold fbdebt. eapply cntb_same; eauto. rewrite H0. auto. Qed.
+
+Lemma GI_frame : forall g g' ts t th th', same_gi g g' -> nth_error ts t = Some th -> gh th' = gh th ->
+  (forall k, holds_k th k -> holds_k th' k) -> GI g ts -> GI g' (set_th ts t th').
+Proof.
+  intros g g' ts t th th' [] Ht Hgh Hh [].
+  assert (Hnth : forall t0 th0, nth_error (set_th ts t th') t0 = Some th0 ->
+            exists th1, nth_error ts t0 = Some th1 /\ gh th0 = gh th1 /\ (forall k, holds_k th1 k -> holds_k th0 k)).
+  { intros. destruct (Nat.eq_dec t t0).
+    - subst. erewrite nth_error_set_th_eq in H; eauto. inv H. eauto.
+    - rewrite nth_error_set_th_neq in H; auto. eauto. }
+  constructor; unfold St in *; rewrite ?sg_tr0, ?sg_max0, ?sg_full0, ?sg_comp0, ?sg_pend0, ?sg_inf0, ?sg_reg0, ?sg_nst0; auto.
+  - rewrite gi_nst0. f_equal. symmetry. eapply cntb_same; eauto. rewrite Hgh. auto.
+  - intros. destruct (Hnth _ _ H) as [th1 [A [B C]]]. apply C. eapply gi_reglock0; eauto. congruence.
+  - intros. destruct (Hnth _ _ H) as [th1 [A [B C]]]. eapply gi_own0; eauto. congruence.
+  - intros. erewrite fbdebt_same; eauto.
+  - erewrite sumz_same; eauto. rewrite Hgh. auto.
+  - erewrite !sumz_same; eauto; rewrite Hgh; auto.
+  - erewrite sumz_same; eauto. rewrite Hgh. auto.
+Qed.
+
+Lemma same_gi_refl : forall g, same_gi g g. Proof. constructor; reflexivity. Qed.
+
+(* ---- one statement ------------------------------------------------------------------------------------------------ *)
+Definition others_stable (g g' : gstate) (ts : list tstate) (t : nat) : Prop :=
+  forall t' th2 a2, t' <> t -> nth_error ts t' = Some th2 -> sat g t' th2 a2 -> sat g' t' th2 a2.
+
+Definition stmt_goal (g : gstate) (ts : list tstate) (t : nat) (g' : gstate) (th' : tstate) (a' : astate) : Prop :=
+  sat g' t th' a' /\ (forall th'', same_regs th' th'' -> GI g' (set_th ts t th'')) /\ others_stable g g' ts t.
+
+Lemma same_regs_holds : forall th th' k, same_regs th th' -> holds_k th k -> holds_k th' k.
+Proof. intros. unfold holds_k in *. rewrite (sr_held _ _ H). auto. Qed.
+
+Lemma stmt_boring : forall g ts t th a g' th',
+  GI g ts -> nth_error ts t = Some th -> sat g t th a -> same_study g g' -> same_gi g g' -> same_regs th th' -> stmt_goal g ts t g' th' a.
+Proof.
+  intros. split; [|split].
+  - eapply sat_frame; eauto.
+  - intros. eapply GI_frame; eauto.
+    + rewrite (sr_gh _ _ H5). apply (sr_gh _ _ H4).
+    + intros. eapply same_regs_holds; eauto. eapply same_regs_holds; eauto.
+  - red; intros. eapply sat_frame; eauto. apply same_regs_refl.
+Qed.
+
+Lemma req_stmt : forall rd wr e a, req (Stmt rd wr e) a = true ->
+  a_ok a = true /\ forallb (fun v => guarded (write_guard v) (a_locks a)) wr = true /\ req_eff e a = true /\ footprint_ok (Stmt rd wr e) = true.
+Proof. unfold req; intros. bool_hyps. auto. Qed.
+
+Section OneStmt.
+Variables (g : gstate) (ts : list tstate) (t : nat) (th : tstate) (a : astate).
+Hypothesis HL : LockInv g ts.
+Hypothesis HG : GI g ts.
+Hypothesis HT : forall t' th2, nth_error ts t' = Some th2 -> thread_ok g t' th2.
+Hypothesis Ht : nth_error ts t = Some th.
+Hypothesis Hs : sat g t th a.
+
+Lemma other_study_contra : forall t' th2 a2, t' <> t -> nth_error ts t' = Some th2 -> sat g t' th2 a2 ->
+  holds LStudy (a_locks a) = true -> holds LStudy (a_locks a2) = true -> False.
+Proof.
+  intros. apply H. eapply LockInv_mutex with (k := KStudy 0); eauto; eapply sat_holds_study; eauto.
+Qed.
+
+Lemma other_reg_contra : forall t' th2 a2, t' <> t -> nth_error ts t' = Some th2 -> sat g t' th2 a2 ->
+  holds LReg (a_locks a) = true -> holds LReg (a_locks a2) = true -> False.
+Proof.
+  intros. apply H. eapply LockInv_mutex with (k := KReg); eauto; eapply sat_holds_reg; eauto.
+Qed.
+
+Lemma T_upd_trial : forall i f, T (upd_study 0 (upd_trial i f) g) = upd_nth i f (T g).
+Proof. reflexivity. Qed.
+
+Lemma nth_upd_transfer : forall i f j (y : trial), nth_error (T g) j = Some y ->
+  nth_error (upd_nth i f (T g)) j = Some (if Nat.eqb i j then f y else y).
+Proof. intros. rewrite nth_error_upd_nth. rewrite H. destruct (Nat.eqb i j); reflexivity. Qed.
+
+Definition tmut_ok (x : trial) (k : tmut) : Prop :=
+  match k with
+  | TFlip _ => holds LStudy (a_locks a) = true /\ t_done x = false
+  | TInf | TFinal _ => t_owner x = Some t /\ t_done x = true
+  | TMeas _ | TFed => True
+  end.
+
+Lemma others_trial_mut : forall i x k, nth_error (T g) i = Some x -> tmut_ok x k ->
+  others_stable g (upd_study 0 (upd_trial i (apply_tmut k)) g) ts t.
+Proof.
+  intros i x k Hx Hok. red. intros t' th2 a2 Hne Hn Hs2.
+  assert (Hlock : forall o, k = TFlip o -> holds LStudy (a_locks a2) = true -> False).
+  { intros. subst. destruct Hok. eapply other_study_contra; eauto. }
+  destruct Hs2. constructor; auto.
+  - intros Hf. destruct (s_idfresh0 Hf). split; auto. rewrite T_upd_trial, length_upd_nth. auto.
+  - intros Hf. destruct (s_room0 Hf). split; auto. rewrite T_upd_trial, length_upd_nth. auto.
+  - intros Hf. destruct (s_curpend0 Hf) as [Hh [j [y [A [B C]]]]]. split; auto.
+    exists j. eexists. split; eauto. split. rewrite T_upd_trial. apply nth_upd_transfer; eauto.
+    destruct (Nat.eqb i j) eqn:E; auto. apply Nat.eqb_eq in E. subst j. rewrite Hx in B. inv B.
+    destruct k; simpl; auto. exfalso. eapply Hlock; eauto.
+  - intros Hf. destruct (s_own0 Hf) as [j [y [A [B [C [D E]]]]]].
+    exists j. eexists. split; eauto. split; eauto. split. rewrite T_upd_trial. apply nth_upd_transfer; eauto.
+    destruct (Nat.eqb i j) eqn:E2; auto. apply Nat.eqb_eq in E2. subst j. rewrite Hx in C. inv C.
+    destruct k; simpl in *; auto. destruct Hok. congruence.
+  - intros v Hf. destruct (s_kinf0 v Hf) as [j [y [A [B [C [D [E F]]]]]]].
+    exists j. eexists. split; eauto. split; eauto. split. rewrite T_upd_trial. apply nth_upd_transfer; eauto.
+    destruct (Nat.eqb i j) eqn:E2; auto. apply Nat.eqb_eq in E2. subst j. rewrite Hx in C. inv C.
+    destruct k; simpl in *; auto; destruct Hok; congruence.
+  - intros Hf. destruct (s_final0 Hf) as [j [y [A [B [C [D [E F]]]]]]].
+    exists j. eexists. split; eauto. split; eauto. split. rewrite T_upd_trial. apply nth_upd_transfer; eauto.
+    destruct (Nat.eqb i j) eqn:E2; auto. apply Nat.eqb_eq in E2. subst j. rewrite Hx in C. inv C.
+    destruct k; simpl in *; auto; destruct Hok; congruence.
+  - intros Hf. destruct (s_hasmeas0 Hf) as [j [y [A [B C]]]].
+    exists j. eexists. split; eauto. split. rewrite T_upd_trial. apply nth_upd_transfer; eauto.
+    destruct (Nat.eqb i j) eqn:E2; auto. destruct k; simpl; auto. destruct (t_meas y); simpl; congruence.
+Qed.
+
+Lemma map_id_upd : forall i f (l : list trial), (forall x, t_id (f x) = t_id x) -> map t_id (upd_nth i f l) = map t_id l.
+Proof. induction i; destruct l; simpl; intros; auto; f_equal; auto. Qed.
+
+Lemma tmut_id : forall k x, t_id (apply_tmut k x) = t_id x.
+Proof. destruct k; reflexivity. Qed.
+
+Lemma opt_nat_eqb_eq : forall x y, opt_nat_eqb x y = true <-> x = y.
+Proof.
+  destruct x, y; simpl; split; intros; try discriminate; try reflexivity.
+  apply Nat.eqb_eq in H. congruence. inv H. apply Nat.eqb_refl.
+Qed.
+
+Lemma fbdebt_set : forall th'' j, Z.of_nat (fbdebt (set_th ts t th'') j) =
+  (Z.of_nat (fbdebt ts j) - b2z (g_fb (gh th) && opt_nat_eqb (g_own (gh th)) (Some j)) + b2z (g_fb (gh th'') && opt_nat_eqb (g_own (gh th'')) (Some j)))%Z.
+Proof. intros. unfold fbdebt. erewrite cntb_set_th; eauto. Qed.
+
+Lemma nth_set_cases : forall th'' t0 th0, nth_error (set_th ts t th'') t0 = Some th0 -> (t0 = t /\ th0 = th'') \/ (t0 <> t /\ nth_error ts t0 = Some th0).
+Proof.
+  intros. destruct (Nat.eq_dec t t0).
+  - subst. erewrite nth_error_set_th_eq in H; eauto. inv H. auto.
+  - rewrite nth_error_set_th_neq in H; auto.
+Qed.
+
+Record shape (g' : gstate) (T' : list trial) : Prop := {
+  sh_T : T g' = T'; sh_max : s_max (St g') = s_max (St g); sh_full : s_full (St g') = s_full (St g);
+  sh_comp : s_comp (St g') = s_comp (St g); sh_pend : s_pend (St g') = s_pend (St g); sh_inf : s_inf (St g') = s_inf (St g);
+  sh_reg : registry g' = registry g; sh_nst : nstudies g' = nstudies g }.
+
+Lemma shape_trial : forall i f, shape (upd_study 0 (upd_trial i f) g) (upd_nth i f (T g)).
+Proof. constructor; reflexivity. Qed.
+
+Lemma stmt_ESetCompleted : req_eff ESetCompleted a = true ->
+  forall g' th', sem c t ESetCompleted g th = (g', th') -> stmt_goal g ts t g' th' (post_eff ESetCompleted a).
+Proof.
+  intros Hre g' th' Hsem. pose proof (s_study _ _ _ _ Hs) as Hst0.
+  simpl in Hre. unfold cur_debts in Hre. bool_hyps.
+  match goal with H : (_ || _) = false |- _ => repeat (apply orb_false_iff in H; destruct H) end.
+  assert (Hcc : d_cc a = false) by assumption. assert (Hdp : d_dp a = false) by assumption. assert (Hfb : d_fb a = false) by assumption.
+  destruct (s_curpend _ _ _ _ Hs) as [_ [i [x [Hcur [Hx Hpend]]]]]; auto.
+  unfold sem, muts, regs, study_of in Hsem. rewrite Hst0, Hcur in Hsem. unfold otrial in Hsem. fold (T g) in Hsem. rewrite Hx, Hpend in Hsem.
+  inv Hsem.
+  destruct (gi_pend _ _ HG _ _ Hx Hpend) as [Hown0 [Hfed0 Hinf0]].
+  assert (HTi : nth_error (T (upd_study 0 (upd_trial i (apply_tmut (TFlip t))) g)) i = Some (apply_tmut (TFlip t) x)).
+  { rewrite T_upd_trial. erewrite nth_upd_transfer; eauto. rewrite Nat.eqb_refl. auto. }
+  split; [|split].
+  - (* the thread itself *)
+    destruct Hs. constructor; simpl; auto; try discriminate.
+    + intros Hf. destruct (s_idfresh0 Hf). split; auto. rewrite T_upd_trial, length_upd_nth. auto.
+    + intros Hf. destruct (s_room0 Hf). split; auto. rewrite T_upd_trial, length_upd_nth. auto.
+    + rewrite s_dcc0, Hcc. reflexivity.
+    + rewrite s_ddp0, Hdp. reflexivity.
+    + intros _. exists i. eexists. repeat split; eauto.
+    + intros v Hv. inv Hv. exists i. eexists. repeat split; eauto.
+    + intros Hf. destruct (s_hasmeas0 Hf) as [j [y [A [B C]]]]. rewrite Hcur in A. inv A. rewrite Hx in B. inv B.
+      exists j. eexists. repeat split; eauto.
+  - (* the study invariant *)
+    intros th'' Hsr. destruct HG.
+    assert (Hgh : gh th'' = gh_flip i (gh th)) by (rewrite (sr_gh _ _ Hsr); reflexivity).
+    destruct (shape_trial i (apply_tmut (TFlip t))).
+    constructor; rewrite ?sh_T0, ?sh_max0, ?sh_full0, ?sh_comp0, ?sh_pend0, ?sh_inf0, ?sh_reg0, ?sh_nst0, ?length_upd_nth; auto.
+    + rewrite gi_nst0. f_equal. symmetry. eapply cntb_same; eauto. rewrite Hgh. reflexivity.
+    + intros t0 th0 Hn Hr. destruct (nth_set_cases _ _ _ Hn) as [[? ?]|[? ?]]; subst.
+      * eapply same_regs_holds; eauto. unfold holds_k. simpl. eapply gi_reglock0; eauto. rewrite Hgh in Hr. auto.
+      * eapply gi_reglock0; eauto.
+    + rewrite map_id_upd by (intros; apply tmut_id). auto.
+    + intros j y Hj Hd. rewrite nth_error_upd_nth in Hj. destruct (Nat.eqb i j) eqn:E.
+      * apply Nat.eqb_eq in E. subst. rewrite Hx in Hj. inv Hj. discriminate.
+      * eapply gi_pend0; eauto.
+    + intros t0 th0 j Hn Ho. destruct (nth_set_cases _ _ _ Hn) as [[? ?]|[? ?]]; subst.
+      * rewrite Hgh in Ho. simpl in Ho. inv Ho. eexists. split; eauto.
+      * destruct (gi_own0 _ _ _ H7 Ho) as [y [A [B C]]]. exists y. split; auto.
+        rewrite nth_error_upd_nth. destruct (Nat.eqb i j) eqn:E; auto.
+        apply Nat.eqb_eq in E. subst. rewrite Hx in A. inv A. congruence.
+    + intros j y Hj. rewrite nth_error_upd_nth in Hj.
+      pose proof (fbdebt_set th'' j) as Hfd. rewrite Hgh in Hfd. simpl in Hfd. rewrite (s_dfb _ _ _ _ Hs) in Hfd. rewrite Hfb in Hfd. simpl in Hfd.
+      destruct (Nat.eqb i j) eqn:E.
+      * apply Nat.eqb_eq in E. subst. rewrite Hx in Hj. inv Hj. simpl. rewrite Hinf0. simpl.
+        pose proof (gi_fed0 _ _ Hx) as Hold. rewrite Hpend in Hold. simpl in Hold. unfold b2z in Hfd. lia.
+      * unfold b2z in Hfd. pose proof (gi_fed0 _ _ Hj). lia.
+    + erewrite countp_upd_flip; eauto. erewrite sumz_set_th; eauto. rewrite Hgh. simpl. rewrite Hpend. unfold b2z. rewrite <- gi_comp0. simpl. ring.
+    + erewrite countp_upd_flip; eauto. erewrite !sumz_set_th; eauto. rewrite Hgh. simpl. rewrite Hpend. unfold b2z. rewrite <- gi_pendc0. simpl. ring.
+    + erewrite countp_upd_same; eauto. erewrite sumz_same; eauto. rewrite Hgh. reflexivity.
+  - eapply others_trial_mut; eauto. simpl. auto.
+Qed.
+End OneStmt.
 
 End Sound.
